@@ -178,6 +178,7 @@ fn lib_main(a: &Args) {
 struct LogFile {
     path: String,
     msgs: Vec<GenMsg>,
+    big: u64, // > 0: a big uniform log of that many messages (only frame summaries are recorded)
 }
 
 #[derive(Clone, Debug)]
@@ -235,6 +236,7 @@ fn msg_rec(i: u32, rx_us: u64, ts_dms: u32, e: u32, a: u32, c: u32, mc: u8, text
 struct Sess {
     conn: Conn,
     evs: Vec<Value>,
+    big: bool,
     file_msgs: u64,
     data_frames: u64, // DltMsgs / StreamInfo frames seen (for the idle detection)
     sentinel: u64,
@@ -256,6 +258,12 @@ impl Sess {
                 match decode(&b) {
                     Some(BinType::DltMsgs((id, msgs))) => {
                         self.data_frames += 1;
+                        if self.big && !msgs.is_empty() {
+                            // big windows: only a summary of the frame (the contract checks that the frames tile the window)
+                            let inc = msgs.windows(2).filter(|w| w[1].index == w[0].index + 1).count();
+                            self.evs.push(json!({"ev":"bin_sum","id":id,"n":msgs.len(),"first":msgs[0].index,"last":msgs[msgs.len() - 1].index,"inc":inc}));
+                            return None;
+                        }
                         let recs: Vec<Value> = msgs
                             .iter()
                             .map(|m| msg_rec(m.index, m.reception_time, m.timestamp_dms, m.ecu, m.apid, m.ctid, m.mcnt, &m.payload_as_text))
@@ -346,8 +354,8 @@ fn parse_ok_json(t: &str) -> Option<(u64, Value)> {
 
 fn run_srv_case(port: u16, case: usize, cs: &SrvCase, logs: &[LogFile], logline: &[usize]) -> Vec<Value> {
     let lf = &logs[cs.log];
-    let n = lf.msgs.len() as u64;
-    let mut evs = vec![json!({"ev":"reset","case":case,"hdr":{"src":cs.src,"logline":logline[cs.log],"n":n,"kind":cs.kind,"late":cs.late}})];
+    let n = if lf.big > 0 { lf.big } else { lf.msgs.len() as u64 };
+    let mut evs = vec![json!({"ev":"reset","case":case,"hdr":{"src":cs.src,"logline":logline[cs.log],"n":n,"big":lf.big,"kind":cs.kind,"late":cs.late}})];
     let conn = match Conn::connect(port, Duration::from_secs(20)) {
         Ok(c) => c,
         Err(e) => {
@@ -355,7 +363,7 @@ fn run_srv_case(port: u16, case: usize, cs: &SrvCase, logs: &[LogFile], logline:
             return evs;
         }
     };
-    let mut s = Sess { conn, evs, file_msgs: 0, data_frames: 0, sentinel: 0, dead: false };
+    let mut s = Sess { conn, evs, big: lf.big > 0, file_msgs: 0, data_frames: 0, sentinel: 0, dead: false };
     let fail = |s: &mut Sess, what: &str, t: Option<String>| {
         s.evs.push(json!({"ev":"unexpected_reply","to":what,"text":trunc(&t.unwrap_or_default(), 200)}));
     };
@@ -593,7 +601,7 @@ fn srv_main(a: &Args) {
                     .collect();
                 let path = format!("{}/tiny-{}.dlt", dir, logs.len());
                 write_log(&path, &msgs);
-                logs.push(LogFile { path, msgs });
+                logs.push(LogFile { path, msgs, big: 0 });
                 logs.len() - 1
             });
             let filt = if v["unfiltered"].as_bool().unwrap_or(false) { vec![] } else { vec![F { neg: false, e: String::new(), a: "MTCH".into(), c: String::new() }] };
@@ -627,7 +635,7 @@ fn srv_main(a: &Args) {
         let msgs = if k <= 1 { gen_log(&mut rng, n, &ECUS, &APIDS, &CTIDS) } else { gen_log_dt(&mut rng, n, &ECUS, &APIDS, &CTIDS, 100, 400) };
         let path = format!("{}/log-{}.dlt", dir, k);
         write_log(&path, &msgs);
-        logs.push(LogFile { path, msgs });
+        logs.push(LogFile { path, msgs, big: 0 });
     }
     for k in 0..n_random {
         // one third of the sessions on the small / burst logs, two thirds on the logs that stream through
@@ -679,6 +687,31 @@ fn srv_main(a: &Args) {
             pred: Value::Null,
         });
     }
+    // (C) windows of tens of thousands of messages on a big uniform log (more than any per-iteration limit of the server
+    //     loop): queries and streams on the completely loaded file and during parsing; frames are recorded as summaries
+    let n_big = a.num("--big", 0);
+    let first_bigcase = cases.len();
+    if n_big > 0 {
+        let msgs: Vec<GenMsg> = (0..n_big as usize)
+            .map(|i| GenMsg { ecu: "ECUA".into(), apid: "APIA".into(), ctid: "CTIA".into(), t_ms: 1000 + i as u64, mcnt: (i % 256) as u8, text: format!("m{}", i) })
+            .collect();
+        let path = format!("{}/biglog.dlt", dir);
+        write_log(&path, &msgs);
+        logs.push(LogFile { path, msgs: vec![], big: n_big });
+        let li = logs.len() - 1;
+        let all = vec![F { neg: false, e: "ECUA".into(), a: String::new(), c: String::new() }];
+        let none = vec![F { neg: false, e: String::new(), a: "NONE".into(), c: String::new() }];
+        let mk = |kind: &str, late: bool, filt: &Vec<F>, win: (u64, u64), changes: Vec<(u64, u64)>| SrvCase {
+            src: "big".into(), log: li, kind: kind.into(), late, paused_query: false, filt: filt.clone(), win, early_change: None, changes,
+            searches: vec![], lookups: vec![], pred: Value::Null,
+        };
+        cases.push(mk("query", true, &vec![], (0, n_big), vec![]));
+        cases.push(mk("query", true, &all, (0, n_big + 10), vec![]));
+        cases.push(mk("stream", true, &vec![], (0, n_big), vec![(5, n_big - 3000), (0, n_big + 1)]));
+        cases.push(mk("stream", false, &all, (100, n_big), vec![(0, n_big)]));
+        cases.push(mk("query", true, &none, (0, n_big), vec![]));
+        cases.push(mk("query", true, &all, (n_big / 2, n_big), vec![]));
+    }
     if let Some(only) = a.get("--only-case") {
         let k: usize = only.parse().unwrap();
         let c = cases[k].clone();
@@ -688,6 +721,11 @@ fn srv_main(a: &Args) {
     let throttles: Vec<String> = a.str("--throttles", "none,16:4,3:2").split(',').map(|s| s.to_string()).collect();
     let mut servers: Vec<Server> = throttles.iter().enumerate().map(|(i, t)| Server::start(&adlt, &work, &format!("c16-{}", i), if t == "none" { None } else { Some(t) })).collect();
     let ports: Vec<u16> = servers.iter().map(|s| s.port).collect();
+    // the big log is served by an additional process without parser throttle
+    if n_big > 0 {
+        servers.push(Server::start(&adlt, &work, "c16-big", None));
+    }
+    let big_port = servers.last().unwrap().port;
     // the logs go first into the trace: one `log` event per file; cases refer to its line number
     let mut t = Trace::create(&a.str("--out", "trace-srv.ndjson"));
     let mut logline = Vec::new();
@@ -698,7 +736,11 @@ fn srv_main(a: &Args) {
             .enumerate()
             .map(|(i, g)| json!({"i": i, "rx": g.t_ms, "ts": g.t_ms * 10, "e": g.ecu, "a": g.apid, "c": g.ctid, "mc": g.mcnt, "h": hash31(g.text.as_bytes())}))
             .collect();
-        t.ev(json!({"ev":"log","name":k,"msgs":recs}));
+        if lf.big > 0 {
+            t.ev(json!({"ev":"log","name":k,"n":lf.big,"uniform":{"e":"ECUA","a":"APIA","c":"CTIA"},"msgs":[]}));
+        } else {
+            t.ev(json!({"ev":"log","name":k,"msgs":recs}));
+        }
         logline.push(t.lines as usize);
     }
     let cases = Arc::new(cases);
@@ -709,12 +751,14 @@ fn srv_main(a: &Args) {
     let mut threads = Vec::new();
     for _w in 0..conns {
         let (cases, next, results, logs, logline, ports) = (cases.clone(), next.clone(), results.clone(), logs.clone(), logline.clone(), ports.clone());
+        let _ = first_bigcase;
         threads.push(std::thread::spawn(move || loop {
             let k = next.fetch_add(1, Ordering::SeqCst);
             if k >= cases.len() {
                 break;
             }
-            let evs = run_srv_case(ports[k % ports.len()], k, &cases[k], &logs, &logline);
+            let port = if logs[cases[k].log].big > 0 { big_port } else { ports[k % ports.len()] };
+            let evs = run_srv_case(port, k, &cases[k], &logs, &logline);
             results.lock().unwrap().push((k, evs));
         }));
     }
@@ -763,7 +807,7 @@ fn srv_main(a: &Args) {
         }
         for e in evs {
             match e["ev"].as_str().unwrap() {
-                "bin_msgs" => {
+                "bin_msgs" | "bin_sum" => {
                     frames += 1;
                     delivered += e["n"].as_u64().unwrap();
                 }
